@@ -10,6 +10,7 @@ pub mod c12;
 pub mod c15;
 pub mod c16;
 pub mod c17;
+pub mod c18;
 pub mod c20;
 
 pub fn eval(op: &str, args: &[&str]) -> Option<String> {
@@ -29,6 +30,7 @@ pub fn eval(op: &str, args: &[&str]) -> Option<String> {
         "c15" => c15::eval(op, args),
         "c16" => c16::eval(op, args),
         "c17" | "c19" => c17::eval(op, args),
+        "c18" => c18::eval(op, args),
         "c20" => c20::eval(op, args),
         _ => None,
     }
@@ -47,6 +49,7 @@ pub fn generate(prop: &str, thorough: bool, rng: &mut Rng, em: &mut Emit) {
         "C15" => c15::generate(thorough, rng, em),
         "C16" => c16::generate(thorough, rng, em),
         "C17" | "C19" => c17::generate(prop, thorough, rng, em),
+        "C18" => c18::generate(thorough, rng, em),
         "C20" => c20::generate(thorough, rng, em),
         _ => panic!("unknown property {}", prop),
     }
